@@ -55,6 +55,8 @@ def check_split_combine(facts, rep):
                     t = strip(t)
                     if t[0] == 'field' and t[1][0] == 'bin' and t[1][1] == 'SubWithOverflow' and sk(t[1][3]) == 'arg2.%d' % axis:
                         return 'sub'
+                    if t[0] == 'field' and t[1][0] == 'bin' and t[1][1] == 'SubWithOverflow' and sk(t[1][3]) == 'arg2.%d' % (1 - axis):
+                        return 'sub-other'      # the split point of the *other* axis: inside the vocabulary {none, k, l}, and wrong
                     if t[0] == 'field' and t[1][0] != 'bin':
                         return 'none'
                     return '?'
